@@ -28,6 +28,9 @@ func c03Ops(z []int64) ([]bufOp, bool) {
 var c03Expect = map[string]string{}
 
 func c03Run(c *Case) (out string, fails []Fail) {
+	if c.Kind == 1 {
+		return c03StartRun(c) // restart on a backlog with immediate input (c03_startup.go)
+	}
 	ops, ok := c03Ops(c.Z)
 	if !ok || c.Kind != 0 {
 		return "badcase", nil
@@ -353,6 +356,8 @@ func (b *c03Builder) emit(class string) {
 
 func c03Gen(g *Gen) {
 	r := g.R
+	// ---- restart on a backlog, input arriving the moment Start() has returned (kind 1) ----
+	c03StartGen(g)
 	// ---- directed scenarios ----
 	// (1) hand-back at shutdown under a full quota / without directory / with a failing write
 	for _, quota := range []int64{0, 8, 10, 19, 20, 100} {
